@@ -431,10 +431,20 @@ def real_options(spec):
             o['connect_measurements'] = [(M, 'm_measurement_index', {}, 1), (M, 'm_bond_dimension'), (M, 'm_energy_MPO')] \
                 + o['connect_measurements']
     else:
-        ap.update({'dt': spec.get('dt', 0.05), 'N_steps': spec.get('N_steps', 2)})
+        dt = spec.get('dt', 0.05)
+        if isinstance(dt, list):                # complex time step [re, im] (documented: evolved_time float | complex)
+            dt = complex(dt[0], dt[1])
+        ap.update({'dt': dt, 'N_steps': spec.get('N_steps', 2)})
+        if 'start_time' in spec:                # option start_time of TimeEvolutionAlgorithm (absent: its default)
+            ap['start_time'] = spec['start_time']
+        if 'start_trunc_err' in spec:           # option start_trunc_err, given as [eps, ov]
+            from tenpy.algorithms.truncation import TruncationError
+            ap['start_trunc_err'] = TruncationError(spec['start_trunc_err'][0], spec['start_trunc_err'][1])
         if spec['alg'] == 'TEBDEngine':
             ap['order'] = spec.get('order', 2)
         o['final_time'] = spec.get('final_time', 0.4)
+    if 'chi_list' in spec:                      # option chi_list of Sweep engines, given as [[at_sweep, chi], ...]
+        ap['chi_list'] = {int(k): int(v) for k, v in spec['chi_list']}
     ap.update(spec.get('alg_params', {}))
     o['algorithm_params'] = ap
     o.update(spec.get('sim_params', {}))
@@ -529,6 +539,7 @@ def real_run(p):
         out['plain']['group'] = group_obs()
         out['plain']['saves'] = list(H.OBS['saves'])
         out['plain']['sweep_trace'] = jsonable(H.OBS['sweeps'])
+        out['plain']['engine_init'] = jsonable(H.OBS['engine_init'])
         out['n_checkpoints'] = n_ckpt
         on_disk = tenpy.tools.hdf5_io.load('data.' + fmt)
         out['plain_file_equal'] = real_summary(on_disk) == real_summary(plain)
@@ -584,6 +595,8 @@ def real_run(p):
                 rec['ckpt_psi_grouped'] = psi_grouped_in(ck)
                 rec['ckpt_has'] = ['psi' in ck, 'resume_data' in ck]
                 rec['ckpt_sweeps'] = jsonable((ck.get('resume_data') or {}).get('sweeps'))
+                # the counters stored in the checkpoint (evolved_time, sweeps, trunc_err, entries of sweep_stats)
+                rec['ckpt_counters'] = jsonable(H.counters_of(ck['resume_data'])) if isinstance(ck.get('resume_data'), dict) else None
                 del ck
                 fresh_process()
                 try:
@@ -603,6 +616,7 @@ def real_run(p):
                 except Exception as e:
                     rec['error'] = 'resume failed: %s: %s | %s' % (type(e).__name__, e, traceback.format_exc()[-800:])
                 rec['group_resume'] = group_obs()
+                rec['engine_init'] = jsonable(H.OBS['engine_init'])    # counters of the engine re-created from the checkpoint
                 rec['sweep_trace'] = jsonable(H.OBS['sweeps'])
                 out['interrupted'].append(rec)
     finally:
